@@ -461,7 +461,7 @@ type orderSite struct {
 }
 
 func (s orderSite) construct() string {
-	return s.Fn.id() + ":" + s.Kind + ":" + s.Desc
+	return s.Fn.id() + ":" + s.Kind + ":" + noSpace(s.Desc)
 }
 
 var lrFieldNames = [][2]string{{"Left", "Right"}, {"Lhs", "Rhs"}, {"LHS", "RHS"}, {"L", "R"}, {"l", "r"}, {"left", "right"}, {"lhs", "rhs"}}
